@@ -75,6 +75,7 @@ def written_chars(prog, body):
 
 
 def check(env, rep, tier):
+    include(rep, env, tier, "c17", ("C17.1", "C17.4"), "C16.8", "'parse back to the same content': the slices the parser takes lie within the input on character boundaries")
     configs = ["default"] if tier == "quick" else ["default", "nodefault"]
     rep.configs = configs
     for cfg in configs:
